@@ -68,6 +68,34 @@ def interesting(case, trace_snaps):
 
 
 # ---------------------------------------------------------------------------------------------- (a) + (b)
+def snap_check(cfgname, case, k, j, other, osteps, wfe):
+    """traces of j steps after a split point reached by k steps: the instance itself, its deepcopy, a rebuild from the saved case, and an instance with
+    a different past (program `other`, osteps steps, wait flag) overwritten with the snapshot taken at the split point"""
+    target.load_config(gen.CONFIGS[cfgname])
+    cpu = e1.build(case)
+    pre_mem = target.snapshot(cpu)
+    step_trace(cpu, k)
+    mid = target.snapshot(cpu)
+    clone = copy.deepcopy(cpu)
+    t1 = step_trace(cpu, j)
+    t2 = step_trace(clone, j)
+    cpu3 = e1.build(case)
+    t3 = step_trace(cpu3, k + j)[k:]
+    cpu4 = e1.build(other)
+    step_trace(cpu4, osteps)
+    if wfe:
+        cpu4.is_wait_for_event = True
+    target.apply_state(cpu4, {kk: v for kk, v in mid.items() if kk != 'cplog'})
+    t4 = step_trace(cpu4, j)
+    stores = any(pre_mem[m] != mid[m] for m in pre_mem if m.startswith('mem'))
+    exc_taken = (mid['cpsr'] & 31) != (pre_mem['cpsr'] & 31)
+    bad = []
+    for name, t in (('deepcopy', t2), ('rebuild', t3), ('other-history', t4)):
+        if t != t1:
+            bad.append((name, next(x for x in range(len(t1)) if t[x] != t1[x])))
+    return bad, stores, exc_taken
+
+
 def shard_snapshot(seed, count):
     acc = Acc()
     rng = random.Random(seed)
@@ -75,34 +103,15 @@ def shard_snapshot(seed, count):
         cfgname = rng.choice(CFGS)
         case = program_case(rng, cfgname)
         k, j = rng.randrange(0, 8), rng.randrange(1, 12)
-        target.load_config(gen.CONFIGS[cfgname])
-        cpu = e1.build(case)
-        pre_mem = target.snapshot(cpu)
-        step_trace(cpu, k)
-        mid = target.snapshot(cpu)
-        clone = copy.deepcopy(cpu)
-        t1 = step_trace(cpu, j)
-        t2 = step_trace(clone, j)
-        # rebuild from the saved case and run k + j steps
-        cpu3 = e1.build(case)
-        t3 = step_trace(cpu3, k + j)[k:]
-        # history independence: an instance with a different past, overwritten with the snapshot taken at the split point
         other = program_case(rng, cfgname)
         other['mems'] = case['mems']
-        cpu4 = e1.build(other)
-        step_trace(cpu4, rng.randrange(1, 10))
-        if rng.random() < 0.5:
-            cpu4.is_wait_for_event = True
-        target.apply_state(cpu4, {kk: v for kk, v in mid.items() if kk != 'cplog'})
-        t4 = step_trace(cpu4, j)
-        stores = any(pre_mem[m] != mid[m] for m in pre_mem if m.startswith('mem'))
-        exc_taken = (mid['cpsr'] & 31) != (pre_mem['cpsr'] & 31)
+        osteps, wfe = rng.randrange(1, 10), rng.random() < 0.5
+        bad, stores, exc_taken = snap_check(cfgname, case, k, j, other, osteps, wfe)
         acc.case(stores or exc_taken or j >= 3, ('snap', cfgname, case['poke'][0][1][:64], case['state']['cpsr'], k, j), cls='snapshot',
                  sample={'config': cfgname, 'k': k, 'j': j, 'code': case['poke'][0][1][:32], 'stores_before_split': stores, 'exception_before_split': exc_taken})
-        for name, t in (('deepcopy', t2), ('rebuild', t3), ('other-history', t4)):
-            if t != t1:
-                i = next(x for x in range(len(t1)) if t[x] != t1[x])
-                acc.violation('C20:snapshot:' + name, {'case': case, 'k': k, 'j': j, 'kind': name}, {'first_divergent_step': i})
+        for name, i in bad:
+            acc.violation('C20:snapshot:' + name, {'case': case, 'k': k, 'j': j, 'kind': name, 'cfgname': cfgname, 'other': other, 'other_steps': osteps,
+                                                   'other_wfe': wfe}, {'first_divergent_step': i})
     return acc
 
 
@@ -247,9 +256,13 @@ def replay(case, bucket=None):
     if 'history' in case:
         msg = replay_history([tuple(h) for h in case['history']], case.get('same_config', False))
         return [msg] if msg else []
-    a = Acc()
-    rng = random.Random(0)
     c = case['case']
+    if 'other' in case:
+        try:
+            bad, _, _ = snap_check(case['cfgname'], c, case['k'], case['j'], case['other'], case['other_steps'], case['other_wfe'])
+        finally:
+            target.load_config(None)
+        return ['diverged:' + n for n, _ in bad]
     k, j = case['k'], case['j']
     cpu = e1.build(c)
     step_trace(cpu, k)
